@@ -74,6 +74,7 @@ CFGS = [
     {"md": 2000, "msd": 8000, "msb": 6, "msu": 6},
 ]
 
+MAX_PAYLOAD = 1150  # a bigger 1-RTT packet does not fit R's receive path (1200-byte datagrams)
 ALLOC_CAP = 4 << 20  # never ask R to allocate more than this in one reassembly buffer (harness memory guard)
 
 
@@ -413,6 +414,26 @@ def hooked_window_open(R, model, op):
         return False
 
 
+def recount_evidence(R, model):
+    """Names the mechanism of a spurious FLOW_CONTROL_ERROR (signature only, never the verdict): R has charged more
+    bytes to the connection than P sent, or holds a reset stream whose final size it did not record as received."""
+    try:
+        if not model.resets:
+            return False
+        if getattr(model, "diag_overcount", False) or R._local_max_data.used > model.conn_hi:
+            return True
+        # R stopped somewhere inside the packet: its counter must equal the peer's total after one of the prefixes
+        if R._local_max_data.used not in getattr(model, "diag_prefix_totals", [R._local_max_data.used]):
+            return True
+        for s in R._streams.values():
+            fs = s.receiver._final_size
+            if fs is not None and s.receiver.highest_offset < fs:
+                return True
+    except Exception:
+        pass
+    return False
+
+
 SIG_TAGS = ("after-reset", "after-fin", "final-size-repeated", "at-stream-limit", "at-conn-limit")
 
 
@@ -450,7 +471,9 @@ def evaluate(res, case, pup, model, ops, verdicts, closed, R):
             last = ops[-1]
             tags = sorted({t for v in verdicts for t in v.tags if t in SIG_TAGS})
             kinds = "+".join(sorted({o["kind"] for o in ops}))
-            if code in LIMIT_CODES and not closed[1]:
+            if code == FLOW_CONTROL_ERROR and not closed[1] and recount_evidence(R, model):
+                sig = "O1:accused-within-limits:FLOW_CONTROL_ERROR:bytes-counted-twice-after-RESET_STREAM"
+            elif code in LIMIT_CODES and not closed[1]:
                 sig = "O1:accused-within-limits:%s:%s:%s" % (code_name(code), kinds, ",".join(tags) or "plain")
             else:
                 sig = "O1:closed-without-cause:%s:%s" % (code_name(code), kinds)
@@ -472,8 +495,11 @@ def evaluate(res, case, pup, model, ops, verdicts, closed, R):
         return
     code = closed[0]
     if closed[1] or code not in v.codes:
+        sig = "O1:wrong-close-code:%s:%s:got-%s" % (op["kind"], ",".join(sorted(v.tags)), code_name(code))
+        if code == FLOW_CONTROL_ERROR and not closed[1] and recount_evidence(R, model):
+            sig = "O1:accused-within-limits:FLOW_CONTROL_ERROR:bytes-counted-twice-after-RESET_STREAM"
         res.violation(
-            "O1:wrong-close-code:%s:%s:got-%s" % (op["kind"], ",".join(sorted(v.tags)), code_name(code)),
+            sig,
             "frame %r violates %s; expected one of %s, R closed with %s" % (op, v.why, sorted(code_name(c) for c in v.codes), code_name(code)), case, wit,
         )
     else:
@@ -485,14 +511,19 @@ def step_packet(res, case, pup, model, ops, R, burst_no_cycle=False):
     from ..simnet import ApiRaised
 
     verdicts = []
+    model.diag_prefix_totals = [model.conn_hi]
     for op in ops:
         v = model.classify(op)
         verdicts.append(v)
         if v.kind == "reject":
             break
         model.apply(op, v)
+        model.diag_prefix_totals.append(model.conn_hi)
     sent_ops = ops[: len(verdicts)]
+    del model.diag_prefix_totals[len(sent_ops):]  # a packet R closed on was processed up to, at most, its last-but-one frame
     payload = ack_prefix(pup) + b"".join(encode_op(o) for o in sent_ops)
+    if len(payload) > MAX_PAYLOAD:
+        raise RuntimeError("harness: packet payload of %d bytes would be dropped by R" % len(payload))
     try:
         views = pup.deliver(pup.packet("1rtt", payload))
         views += pup.cycle(steps=3, max_advance=0.02)
@@ -503,6 +534,8 @@ def step_packet(res, case, pup, model, ops, R, burst_no_cycle=False):
     model.on_r_cycled()
     closed = r_closed(pup, views)
     evaluate(res, case, pup, model, sent_ops, verdicts, closed, R)
+    if not closed and R._local_max_data.used > model.conn_hi:
+        model.diag_overcount = True  # diagnosis for signatures only (see recount_evidence)
     return closed, verdicts
 
 
@@ -525,10 +558,13 @@ def run_history(pup, model, seed, case, max_len=200):
             kill_at = step + rng.randrange(1, 30)  # survived probes: keep going for a while
         nops = rng.choice([1, 1, 1, 1, 2, 2, 3])
         ops = []
+        room = MAX_PAYLOAD - 60
         for _ in range(nops):
             op = None
             for _try in range(25):
                 cand = gen_op(rng, model, ids, boundary, last_op)
+                if len(encode_op(cand)) > room:
+                    continue
                 if cand["kind"] != "NOISE" and cand["kind"] in ("STREAM", "RESET_STREAM") and not alloc_ok(model, cand):
                     continue
                 if boundary:
@@ -541,9 +577,13 @@ def run_history(pup, model, seed, case, max_len=200):
                     break
             if op is None:
                 op = {"kind": "NOISE", "which": 0, "v": 0}
+            room -= len(encode_op(op))
             ops.append(op)
             last_op = op
+        nviol = len(res.violations)
         closed, verdicts = step_packet(res, case, pup, model, ops, R)
+        if len(res.violations) > nviol and not closed:
+            closed = ("violation", False)  # model and R disagree from here on: end of history
         sig.append((tuple(o["kind"][:3] for o in ops[: len(verdicts)]), tuple(tuple(sorted(v.tags)) for v in verdicts), bool(closed)))
         if closed:
             break
@@ -553,7 +593,7 @@ def run_history(pup, model, seed, case, max_len=200):
     res.count("o1_r_limit_raises_seen", model.raises - raises0)
     if res.counters.get("o1_at_limit_accepted") or res.counters.get("o1_must_reject_checked"):
         res.nontrivial.add("lim:" + h(case.get("victim"), case.get("cfg"), tuple(sig[-12:]), len(sig) // 10))
-    res.sample({"case": case, "packets": step, "closed": code_name(closed[0]) if closed and closed[0] != "api" else str(closed),
+    res.sample({"case": case, "packets": step, "closed": code_name(closed[0]) if closed and isinstance(closed[0], int) else str(closed),
                 "raises": model.raises - raises0, "advertised_max_data": model.max_data, "last": sig[-2:]}, limit=1)
     return res.as_dict()
 
